@@ -212,4 +212,19 @@ PROPS = {
                         "Bernstein basis; at junctions (within 1e-9 T) either one-sided limit is accepted for the value and derivatives are not judged",
                         "verdict covers only the executions sampled"],
     },
+    "C14": {
+        "units": [{"name": "c14_a", "src": "harness/c14.cpp", "defs": ["-DTS=0"], "flavor": "asan", "shards": {"quick": 10, "thorough": 16}},
+                  {"name": "c14_b", "src": "harness/c14.cpp", "defs": ["-DTS=1"], "flavor": "asan", "shards": {"quick": 6, "thorough": 16}}],
+        "rule": "cases: fit_spline_1d on 2..40 stamps (sampling 1e-2..1e2, neighbour ratio <= 1e3 for PiecewiseLinear / FixedDerCubic<1|2,1|2>, <= 10 for "
+                "MinDerivative<6,3,3|5,3,3|6,4,3>) with every linear constraint rebuilt from the documentation in long double; fit_spline on SE3/SO3/SE2/"
+                "R3/R1 data (through the points from both sides, velocity continuity for degree >= 3, rest-to-rest); dubins_curve<1..4> on targets over "
+                "the plane incl. coincident circles, d = 4R, axis-aligned headings, R in 1e-2..1e2 against six self-validated oracle words; fit_bspline "
+                "span; reparameterize_spline monotone/onto/start speed; distinct = distinct inputs",
+        "floors": {"min_evaluations": {"quick": 20000, "thorough": 600000},
+                   "cells": [r"fit_spline_1d\.MinDerivative633\.interpolation\|dt:1e-2", r"fit_spline_1d\.FixedDerCubic12\.boundary", r"dubins\.K2\.length_not_longer", r"dubins\.K3\.curvature_bound\|kind3",
+                             r"fit_spline\.SE3d\.FixedDerCubic11\.ends_at_rest", r"fit_spline\.SE2d\.MinDerivative633\.velocity_continuous", r"reparameterize\.non_decreasing", r"fit_bspline\.covers_end"],
+                   "counters": ["C14.dubins.oracle_words_validated"]},
+        "assumptions": ["Spline evaluation itself is judged by C12; Dubins oracle words are kept only if their forward-integrated end pose hits the target",
+                        "verdict covers only the executions sampled"],
+    },
 }
